@@ -13,7 +13,7 @@ use pricelevel::{
 };
 use proptest::prelude::*;
 use serde::{Deserialize, Serialize};
-use std::collections::{BTreeMap, HashMap, HashSet};
+use std::collections::{BTreeMap, HashMap, HashSet, VecDeque};
 use std::str::FromStr;
 use std::sync::Arc;
 
@@ -37,6 +37,9 @@ pub enum MatchSize {
     AllPlus1,
     Zero,
     Huge,
+    /// exactly the quantity of the first k fills a full sweep would make (so the match ends on a
+    /// fill / replenishment boundary, wherever in the queue that is)
+    AfterFills(u8),
 }
 
 #[derive(Clone, Copy, Debug, PartialEq, Eq, Hash, Serialize, Deserialize)]
@@ -121,6 +124,9 @@ pub enum Op {
     AmendChurn { target: Target, n: u32 },
     /// add `n` orders under fresh reserved ids that stay resting
     Burst { n: u32, spec: OrderSpec },
+    /// amend every resting order that shows nothing to `qty` displayed (same-price quantity
+    /// amendments, in listing order or reversed; at most 64 of them)
+    Revive { qty: u64, rev: bool },
     /// (metamorphic twin of C07) add an extra order under a reserved id ...
     GhostAdd { spec: OrderSpec },
     /// ... and take it out again right away: 0 cancel, 1 price move, 2 price+quantity to another
@@ -215,6 +221,8 @@ pub struct HistCfg {
     pub kind_weights: [u32; 7],
     /// share (out of 10) of histories with strictly increasing timestamps
     pub increasing_ts_share: u32,
+    /// with `zeros` off: share (out of 10) of histories that allow zero quantities all the same
+    pub zeros_share: u32,
 }
 
 impl HistCfg {
@@ -239,6 +247,7 @@ impl HistCfg {
             final_drain: false,
             kind_weights: [3, 4, 1, 2, 2, 2, 5],
             increasing_ts_share: 4,
+            zeros_share: 0,
         }
     }
 }
@@ -278,6 +287,7 @@ fn match_size(profile: Profile) -> BoxedStrategy<MatchSize> {
     prop_oneof![
         6 => exact.prop_map(MatchSize::Exact),
         3 => (1u8..=4).prop_map(MatchSize::FirstK),
+        2 => (1u8..=8).prop_map(MatchSize::AfterFills),
         2 => Just(MatchSize::AllPlus1),
         1 => Just(MatchSize::Zero),
         1 => Just(MatchSize::Huge),
@@ -354,11 +364,29 @@ pub fn op_strategy(cfg: HistCfg, profile: Profile) -> BoxedStrategy<Op> {
             .prop_map(|(churn, n, bn, spec)| if churn { Op::Churn { n, spec, ghost: false } } else { Op::Burst { n: bn, spec } })
             .boxed(),
     ));
+    if cfg.zeros {
+        v.push((
+            (cfg.w_upd_qty / 3).max(1),
+            (1u64..=9, any::<bool>()).prop_map(|(qty, rev)| Op::Revive { qty, rev }).boxed(),
+        ));
+    }
     let v: Vec<_> = v.into_iter().filter(|(w, _)| *w > 0).collect();
     proptest::strategy::Union::new_weighted(v).boxed()
 }
 
 pub fn history(cfg: HistCfg) -> BoxedStrategy<History> {
+    if !cfg.zeros && cfg.zeros_share > 0 {
+        let mut with = cfg;
+        with.zeros = true;
+        with.zeros_share = 0;
+        let mut without = cfg;
+        without.zeros_share = 0;
+        return prop_oneof![
+            (10 - cfg.zeros_share.min(9)) => history(without),
+            cfg.zeros_share.min(9) => history(with),
+        ]
+        .boxed();
+    }
     let profile = if cfg.boundary_share == 0 {
         Just(Profile::Small).boxed()
     } else {
@@ -457,6 +485,11 @@ pub enum OpResult {
 
 #[derive(Clone, Debug, Default)]
 pub struct Facts {
+    /// orders showing nothing that were amended to a positive display by a Revive operation
+    pub revived: u64,
+    /// matches whose makers the tracked ticket queue predicted exactly / did not predict
+    pub tq_predicted: u64,
+    pub tq_mismatch: u64,
     pub adds: u64,
     pub matches: u64,
     pub txs: u64,
@@ -669,6 +702,16 @@ pub struct Interp {
     pub taker_counter: u64,
     pub trace: Vec<String>,
     pub keep_trace: bool,
+    /// The ticket queue the level is documented to keep (order_queue.rs: ids are queued on every
+    /// push - add, same-price amendment, survivor of a match - and a removal by id leaves its
+    /// ticket behind), tracked exactly. It delimits the known findings KF-C04-1/-2 and KF-C11-1:
+    /// a deviation from arrival order is attributed to them only if the makers of the match are
+    /// exactly those this queue yields. None = not tracked any more (a prediction failed, the
+    /// model diverged, or a rebuild with tied timestamps).
+    pub tq: Option<VecDeque<OrderId>>,
+    /// verdict for the match being audited: Some(true) the ticket queue yields exactly the
+    /// observed makers and quantities, Some(false) it does not, None not tracked
+    tq_verdict: Option<bool>,
 }
 
 #[derive(Clone, Debug, PartialEq)]
@@ -737,6 +780,8 @@ impl Interp {
             taker_counter: 0,
             trace: Vec::new(),
             keep_trace: false,
+            tq: Some(VecDeque::new()),
+            tq_verdict: None,
         }
     }
 
@@ -992,6 +1037,9 @@ impl Interp {
                 });
             }
         }
+        if !problems.is_empty() {
+            self.tq = None;
+        }
         for p in problems {
             self.violate(oracle, p);
         }
@@ -1146,6 +1194,7 @@ impl Interp {
                         }
                     }
                     self.supplied_total += per_pair;
+                    self.tq_push(id);
                     self.exp_added += 1;
                     self.exp_removed += 1;
                     self.pushes += 1;
@@ -1185,10 +1234,12 @@ impl Interp {
                                 let m = &mut self.model[i];
                                 m.supplied += delta;
                                 m.cur = **o;
+                                self.tq_push(id);
                             }
                             other => {
                                 let shown = format!("{:?}", other.as_ref().map(|o| o.as_ref().map(|a| brief(a))));
                                 self.violate(Oracle::Update, format!("{} on resting {} returned {}", u, brief(&cur), shown));
+                                self.tq = None;
                                 break;
                             }
                         }
@@ -1197,6 +1248,30 @@ impl Interp {
                     }
                     self.stale_possible.insert(id);
                     self.event_since_match = true;
+                }
+                OpResult::Bulk
+            }
+            Op::Revive { qty, rev } => {
+                let mut ids: Vec<(u64, OrderId)> = self
+                    .model
+                    .iter()
+                    .filter(|e| e.cur.visible_quantity() == 0)
+                    .map(|e| (e.cur.timestamp(), e.id))
+                    .collect();
+                ids.sort_by_key(|x| (x.0, id_key(x.1)));
+                if *rev {
+                    ids.reverse();
+                }
+                ids.truncate(64);
+                for (_, id) in ids {
+                    if self.dead {
+                        break;
+                    }
+                    let q = self.clamp_amend(id, *qty);
+                    if q > 0 {
+                        let _ = self.do_amend(OrderUpdate::UpdateQuantity { order_id: id, new_quantity: q }, id, q);
+                        self.facts.revived += 1;
+                    }
                 }
                 OpResult::Bulk
             }
@@ -1269,6 +1344,87 @@ impl Interp {
             }
         }
         self.other_price()
+    }
+
+    fn apply_silent_replenish(&mut self, id: OrderId) {
+        if let Some(i) = self.find(id) {
+            if self.model[i].cur.visible_quantity() == 0 {
+                if let Some(nx) = silent_visit(&self.model[i].cur) {
+                    if nx != self.model[i].cur {
+                        self.clock += 1;
+                        let rank = self.clock;
+                        let e = &mut self.model[i];
+                        e.cur = nx;
+                        e.rank = rank;
+                        e.requeued = false;
+                        e.touched = true;
+                        self.facts.silent_replenish += 1;
+                    }
+                }
+            }
+        }
+    }
+
+    fn tq_push(&mut self, id: OrderId) {
+        if let Some(q) = self.tq.as_mut() {
+            q.push_back(id);
+        }
+    }
+
+    /// What `match_order(s)` does to the tracked ticket queue and which makers it yields
+    /// (pop the head; drop tickets of ids that are not resting; an order that trades or replenishes
+    /// and survives is queued again at the tail; orders that can do neither are set aside and
+    /// queued again after the match). Pure: returns (fills, queue afterwards).
+    fn tq_predict(&self, s: u64, max_fills: usize) -> Option<(Vec<(OrderId, u64)>, VecDeque<OrderId>, Vec<(usize, OrderId)>, Vec<OrderId>)> {
+        let mut q = self.tq.clone()?;
+        let mut overlay: HashMap<IdKey, Option<Order>> = HashMap::new();
+        let mut fills: Vec<(OrderId, u64)> = Vec::new();
+        let mut set_aside: Vec<OrderId> = Vec::new();
+        // replenishments of orders that showed nothing (no transaction): (number of fills before, id)
+        let mut silent: Vec<(usize, OrderId)> = Vec::new();
+        let mut remaining = s;
+        while remaining > 0 && fills.len() < max_fills {
+            let id = match q.pop_front() {
+                Some(id) => id,
+                None => break,
+            };
+            let k = id_key(id);
+            let cur = match overlay.get(&k) {
+                Some(o) => *o,
+                None => self.find(id).map(|i| self.model[i].cur),
+            };
+            let cur = match cur {
+                Some(c) => c,
+                None => continue, // stale ticket
+            };
+            let r = ref_match(&cur, remaining);
+            if r.consumed > 0 {
+                fills.push((id, r.consumed));
+            }
+            remaining = r.remaining;
+            match r.next {
+                None => {
+                    overlay.insert(k, None);
+                }
+                Some(nx) => {
+                    overlay.insert(k, Some(nx));
+                    if r.consumed == 0 && r.hidden_moved == 0 {
+                        // (taken out of the book for the rest of this match)
+                        overlay.insert(k, None);
+                        set_aside.push(id);
+                    } else {
+                        if r.consumed == 0 {
+                            silent.push((fills.len(), id));
+                        }
+                        q.push_back(id);
+                    }
+                }
+            }
+        }
+        for id in &set_aside {
+            q.push_back(*id);
+        }
+        Some((fills, q, silent, set_aside))
     }
 
     fn headroom(&self) -> u64 {
@@ -1352,6 +1508,7 @@ impl Interp {
             partially_filled: false,
             tranche_unsynced: false,
         });
+        self.tq_push(id);
         self.exp_added += 1;
         self.pushes += 1;
         self.facts.adds += 1;
@@ -1391,6 +1548,10 @@ impl Interp {
             MatchSize::AllPlus1 => (sum_all + 1).min(u64::MAX as u128) as u64,
             MatchSize::Zero => 0,
             MatchSize::Huge => u64::MAX,
+            MatchSize::AfterFills(k) => match self.tq_predict(u64::MAX, k as usize) {
+                Some((fills, ..)) => fills.iter().fold(0u64, |a, f| a.saturating_add(f.1)),
+                None => listing_disp.iter().take(k as usize).fold(0u64, |a, b| a.saturating_add(*b)),
+            },
         };
         // keep the number of replenishment rounds a correct sweep needs bounded (DESIGN §C06)
         let max_rounds: u64 = self.max_rounds;
@@ -1428,6 +1589,8 @@ impl Interp {
         let taker = taker_override.unwrap_or_else(|| OrderId::from_u64(0xFFFF_0000_0000_0000 | self.taker_counter));
         let budget = 4000 + 40 * self.pushes + 400 * (n + rounds);
         self.note(|| format!("match {} (from {:?})", s, size));
+        let tq_prediction = self.tq_predict(s, usize::MAX);
+        self.tq_verdict = None;
         self.concrete.push(Concrete::Match(s, taker));
         let res: MatchResult =
             match with_step_budget(budget, || self.level.match_order(s, taker, &self.gen)) {
@@ -1457,6 +1620,22 @@ impl Interp {
         });
         // ---- C02 accounting
         let txs = res.transactions.as_vec().clone();
+        let mut silent_events: Vec<(usize, OrderId)> = Vec::new();
+        let mut set_aside_exact: Vec<OrderId> = Vec::new();
+        if let Some((fills, after, silent, aside)) = tq_prediction {
+            let seen: Vec<(OrderId, u64)> = txs.iter().map(|t| (t.maker_order_id, t.quantity)).collect();
+            if fills == seen {
+                self.facts.tq_predicted += 1;
+                self.tq_verdict = Some(true);
+                self.tq = Some(after);
+                silent_events = silent;
+                set_aside_exact = aside;
+            } else {
+                self.facts.tq_mismatch += 1;
+                self.tq_verdict = Some(false);
+                self.tq = None;
+            }
+        }
         let executed: u128 = txs.iter().map(|t| t.quantity as u128).sum();
         match catch(|| res.executed_quantity()) {
             Ok(e) if e as u128 == executed => {}
@@ -1485,7 +1664,16 @@ impl Interp {
         let mut per_maker: HashMap<OrderId, u32> = HashMap::new();
         let mut replenish_in_call = 0u32;
         let mut pairs_done = 0usize;
-        for t in &txs {
+        let mut silent_at = 0usize;
+        for (tx_index, t) in txs.iter().enumerate() {
+            // orders that showed nothing and were replenished by this match's visit before this
+            // transaction (known exactly when the ticket queue predicted the match): they moved
+            // to the back at that moment
+            while silent_at < silent_events.len() && silent_events[silent_at].0 <= tx_index {
+                let sid = silent_events[silent_at].1;
+                silent_at += 1;
+                self.apply_silent_replenish(sid);
+            }
             if t.quantity == 0 {
                 self.violate(Oracle::Account, "transaction with quantity 0".into());
             }
@@ -1554,14 +1742,18 @@ impl Interp {
                     continue;
                 }
                 if x.rank < m_rank {
-                    if x.requeued && self.excuse_kf_c04_1 {
+                    // the known findings explain a deviation only if this match yields exactly the
+                    // makers the documented ticket queue yields
+                    let explained = self.tq_verdict != Some(false);
+                    if explained && x.requeued && self.excuse_kf_c04_1 {
                         self.facts.kf_c04_1 += 1;
-                    } else if m_stale && self.excuse_kf_c04_2 {
+                    } else if explained && m_stale && self.excuse_kf_c04_2 {
                         self.facts.kf_c04_2 += 1;
                     } else {
                         let msg = format!(
-                            "maker {} (arrival rank {}) traded while {} (rank {}) was waiting ahead of it",
-                            brief(&cur), m_rank, brief(&x.cur), x.rank
+                            "maker {} (arrival rank {}) traded while {} (rank {}) was waiting ahead of it{}",
+                            brief(&cur), m_rank, brief(&x.cur), x.rank,
+                            if explained { "" } else { " (and the makers of this match are not those the level's ticket queue yields, so the re-queue-at-tail / stale-ticket findings do not explain it)" }
                         );
                         self.violate(Oracle::Priority, msg);
                     }
@@ -1629,6 +1821,11 @@ impl Interp {
                 }
             }
         }
+        while silent_at < silent_events.len() {
+            let sid = silent_events[silent_at].1;
+            silent_at += 1;
+            self.apply_silent_replenish(sid);
+        }
         if traded.len() >= 2 {
             self.facts.sweep_multi = true;
         }
@@ -1657,10 +1854,19 @@ impl Interp {
                 );
             }
         }
-        // display-0 survivors are set aside and re-queued at the tail (counts as re-queued)
-        for e in self.model.iter_mut() {
-            if e.cur.visible_quantity() == 0 && res.remaining_quantity > 0 {
-                e.requeued = true;
+        // display-0 survivors are set aside and re-queued at the tail (counts as re-queued);
+        // which ones exactly is known when the ticket queue predicted this match
+        if self.tq_verdict == Some(true) {
+            for id in &set_aside_exact {
+                if let Some(i) = self.find(*id) {
+                    self.model[i].requeued = true;
+                }
+            }
+        } else {
+            for e in self.model.iter_mut() {
+                if e.cur.visible_quantity() == 0 && res.remaining_quantity > 0 {
+                    e.requeued = true;
+                }
             }
         }
         self.facts.set_aside_orders += self
@@ -1829,8 +2035,10 @@ impl Interp {
                         let m = &mut self.model[i];
                         m.supplied += delta;
                         m.cur = new;
+                        self.tq_push(id);
                     }
                     other => {
+                        self.tq = None;
                         self.violate(
                             Oracle::Update,
                             format!(
@@ -1992,6 +2200,13 @@ impl Interp {
         self.stats_known = false;
         self.pushes = self.model.len() as u64;
         let order: HashMap<OrderId, usize> = new_list.iter().enumerate().map(|(i, o)| (o.id(), i)).collect();
+        // the rebuilt level queues the listed orders in listed (timestamp) order; with tied
+        // timestamps that order is not determined by the content
+        self.tq = if new_list.windows(2).all(|w| w[0].timestamp() < w[1].timestamp()) {
+            Some(new_list.iter().map(|o| o.id()).collect())
+        } else {
+            None
+        };
         for e in self.model.iter_mut() {
             e.requeued = false;
         }
